@@ -1,5 +1,5 @@
 (* The to_file protocol model over recorded data (lengths), with the regenerated FORMATTERS order. *)
-From PV Require Import Base.Prelude Spec.BuildSpec Spec.FsSem Model.FsProto Generated.T_files_file.
+From PV Require Import Base.Prelude Spec.BuildSpec Spec.FsSem Model.FsProto Generated.T_file_proto.
 
 Definition zsum (l : list Z) : Z := fold_left Z.add l 0.
 
